@@ -172,6 +172,9 @@ fn lit(rng: &mut Rng) -> CE {
         0 => CE::Lit(format!("0x{:x}", v), v),
         1 if v > 0 => CE::Lit(format!("0{:o}", v), v),
         2 if (32..127).contains(&v) && v != 39 && v != 92 && v != 34 => CE::Lit(format!("'{}'", v as u8 as char), v),
+        // escaped character constants (the sources define one-letter macros n, r, v, b: the letter
+        // after the backslash is not a macro use)
+        3 if [0, 7, 8, 10].contains(&v) => CE::Lit(match v { 0 => "'\\0'", 7 => "'\\a'", 8 => "'\\b'", _ => "'\\n'" }.to_string(), v),
         _ => CE::Lit(format!("{}", v), v),
     }
 }
@@ -264,7 +267,7 @@ fn judge_static(kind: &str, idx: u64, t: &CE, v: i64, sig: Option<String>) -> Ca
     };
     let (asz, aszv) = good_tree(&mut rng, 2, &|v| (0..=200).contains(&v));
     let src = format!(
-        "const char k = {};\nconst short ks = {};\nunsigned char t[{}];\naligned({}) const char t2[2] = {{{}, 1}};\nvoid f() {{ asm(\"NOP ;@I1\", {}); }}\nvoid main() {{ f(); }}\n",
+        "#define n 7\n#define r 8\n#define v 9\n#define b 3\nconst char k = {};\nconst short ks = {};\nunsigned char t[{}];\naligned({}) const char t2[2] = {{{}, 1}};\nvoid f() {{ asm(\"NOP ;@I1\", {}); }}\nvoid main() {{ f(); }}\n",
         e,
         e,
         sz.print(0),
@@ -469,6 +472,7 @@ fn judge_undefined(kind: &str, idx: u64) -> CaseResult {
         "1 / 0", "5 / (3 - 3)", "1 << 32", "1 << 40", "1 << -1", "1 >> 32", "65536 * 65536", "2147483647 + 1", "-2147483647 - 2", "99999999999", "0x100000000",
         "040000000000", "2147483647 * 2", "7 / (1 / 2)", "0x40000000 << 1", "0x1000000 << 8", "3 << 31", "(0x7fffffff << 1) >> 28", "-2147483647 - 1 - 1", "0 - 2147483647 - 2",
         "2147483647 - -1", "46341 * 46341", "-46341 * 46341", "5 % 0",
+        "0x80000000", "0xFFFFFFFF", "0xffff0000 >> 16", "(0xF0000000 < 16) + 1",
     ];
     let positions = [
         "const char k = @;\nvoid main() {}\n",
@@ -569,7 +573,7 @@ impl Monitor for C10 {
         let nc = core_len();
         v.extend(split_chunks("pairs", 0, nc, nc, 200));
         v.extend(split_chunks("pairs-folded", 0, nc, nc, 200));
-        v.extend(split_chunks("undefined", 0, 24 * 8, 24 * 8, 20));
+        v.extend(split_chunks("undefined", 0, 28 * 8, 28 * 8, 20));
         v.extend(split_chunks("sizeof", 0, 1, 1, 1));
         let n = match tier {
             Tier::Quick => 60_000,
